@@ -222,8 +222,8 @@ def cases(tier, seed):
         for hbs in ([], [5], [0], [5, 4], [5, 0], [0, 5]):
             out.append({"part": "wait", "which": which, "hbs": hbs, "P": P})
         # two application threads wait for the same node
-        for hbs in ([5], [0], [0, 5]):
-            out.append({"part": "wait2", "which": which, "hbs": hbs, "P": 2})
+        for hbs in ([5], [0], [0, 5]) + (([5, 0], [5, 4]) if tier == "thorough" else ()):
+            out.append({"part": "wait2", "which": which, "hbs": hbs, "P": 2 if tier == "quick" or len(hbs) > 1 else 3})
     return out
 
 
